@@ -464,6 +464,12 @@ class _Walk:
                 times, why = 1, "consumed"
                 if isinstance(par, ast.Compare) and len(par.ops) == 1 and isinstance(par.ops[0], (ast.Is, ast.IsNot)):
                     continue  # identity test does not consume
+                if isinstance(par, ast.Call) and isinstance(par.func, ast.Name) and par.func.id in ("len", "bool", "isinstance", "type", "id", "repr", "callable") and n in par.args:
+                    continue  # asks about the object, does not iterate it (len() of a one-shot iterator is a TypeError, not a silent second pass)
+                if isinstance(par, (ast.If, ast.While, ast.IfExp)) and par.test is n:
+                    continue  # truth test
+                if isinstance(par, ast.BoolOp) or (isinstance(par, ast.UnaryOp) and isinstance(par.op, ast.Not)):
+                    continue  # truth test
                 if isinstance(par, ast.Call) and n in par.args or (isinstance(par, ast.keyword)):
                     call = par if isinstance(par, ast.Call) else self._par.get(par)
                     if isinstance(call, ast.Call):
